@@ -165,6 +165,12 @@ def nondet : List (String × String × String) := [
 /-- mutex operations of the KeyStore methods, flattened through intra-type calls (deferred unlocks last) -/
 def lockOps : List (String × List String) := [("Save", ["Lock", "Unlock"]), ("Load", ["RLock", "RUnlock"]), ("LoadByAddress", ["RLock", "RUnlock", "RLock", "RUnlock"])]
 
+/-- per exported KeyStore method: the mutex operations on every control path (early returns, branches, loops 0/1 times, intra-type calls expanded), deferred unlocks last -/
+def lockPaths : List (String × List (List String)) := [
+  ("Load", [["RLock", "RUnlock"]]), 
+  ("LoadByAddress", [["RLock", "RUnlock"], ["RLock", "RUnlock", "RLock", "RUnlock"]]), 
+  ("Save", [[], ["Lock", "Unlock"]])]
+
 /-- skeletons of the `init` functions per package (empty list: the package has none) -/
 def initFuncs : List (String × List String) := [("x/aol/types", ["call RegisterCodec", "call amino.Seal"])]
 
